@@ -1352,7 +1352,7 @@ class Interp:
                         return
                     cond = cond * v.guard
                     ax += 1
-                elif isinstance(v, Arr) and v.ndim >= 1 and _is_boolean(v.poly):
+                elif isinstance(v, Arr) and v.ndim >= 1 and _is_boolean(v.poly) and v.dt not in ('i', 'f'):
                     for k, d in enumerate(v.dims):
                         if ax + k < len(cur_dims) and cur_dims[ax + k] != d and self._positional(d) and self._positional(cur_dims[ax + k]) \
                                 and self.axis_len[d] == self.axis_len[cur_dims[ax + k]] and cur_dims[ax + k] not in v.dims:
@@ -2328,7 +2328,7 @@ class Interp:
             return Unk('attribute %s of an interp1d object' % name, e)
         if isinstance(v, (GenList, _Repeat, _WhereIdx)):
             return BoundExt(v, name)
-        if isinstance(v, (list, dict, str, tuple)):
+        if isinstance(v, (list, dict, str, tuple, bytes, _ArrSelect)):
             return BoundExt(v, name)
         if isinstance(v, (Bound, FuncRef)):
             return Unk('function attribute', e)
@@ -2341,6 +2341,8 @@ class Interp:
         v = self.expr(e.value, env, mod)
         if isinstance(v, Unk):
             return v
+        if v is None:
+            raise PyRaise('TypeError', "'NoneType' object is not subscriptable (%s)" % up(e)[:60])
         if isinstance(v, _ArrSelect):
             outs_ = []
             for alt_ in (v.a, v.b):
@@ -2563,7 +2565,7 @@ class Interp:
                     raise LabelClash('index over axis %r used on axis %r in %s' % (w.label, lab, up(e)))
                 ax += 1
                 continue
-            if isinstance(w, Arr) and w.ndim >= 1 and _is_boolean(w.poly):
+            if isinstance(w, Arr) and w.ndim >= 1 and _is_boolean(w.poly) and w.dt not in ('i', 'f'):          # (an array of integers that happens to hold 0 / 1 is an index array, not a mask)
                 for j, d in enumerate(w.dims):
                     if ax + j < v.ndim and v.dims[ax + j] != d and self._positional(d) and self._positional(v.dims[ax + j]) \
                             and self.axis_len[d] == self.axis_len[v.dims[ax + j]] and v.dims[ax + j] not in w.dims:
@@ -3581,6 +3583,8 @@ class Interp:
     def method(self, recv, name, args, kw, e, mod):
         if isinstance(recv, _ArrSelect):
             return merge_val(self.method(recv.a, name, args, kw, e, mod), self.method(recv.b, name, args, kw, e, mod), recv.cond, e)
+        if isinstance(recv, bytes) and name == 'join' and len(args) == 1 and isinstance(args[0], (list, tuple)) and all(isinstance(x_, Foreign) for x_ in args[0]):
+            return BytesSeq(list(args[0]))          # pieces of binary data laid end to end (each piece a modelled object, e.g. the bytes of one pickle)
         if isinstance(recv, Foreign) and any(isinstance(a_, _SelectVal) for a_ in args):
             # an argument chosen between two values by a data-dependent condition: the call is made with each under its condition
             k_ = next(i_ for i_, a_ in enumerate(args) if isinstance(a_, _SelectVal))
@@ -3939,6 +3943,12 @@ class _Select(Foreign):
             finally:
                 interp.conds.pop()
         return merge_val(out[0], out[1], self.cond, node)
+
+
+class BytesSeq(Foreign):
+    """b''.join(pieces): binary pieces laid end to end, kept apart"""
+    def __init__(self, parts):
+        self.parts = parts
 
 
 class _ArrSelect:
